@@ -23,8 +23,8 @@ RULE = ("one run = one export stream: records for 1-6 cards fragmented by contes
         "non-trivial = some identifier occurs more than once with overlapping contests or differing flags; distinct = "
         "distinct event-log digest")
 ASSUMPTIONS = [
-    "flags in the stream are Python booleans; tally pools are strings (including the empty string), integers (including 0) or None",
-    "RAIRE rankings are duplicate-free; the file is written by the simulator exactly in the documented layout",
+    "flags in the stream are Python booleans; tally pools are strings (including the empty string and strings that print like another label), integers (including 0) or None",
+    "RAIRE rankings are duplicate-free; the file is written by the simulator exactly in the documented layout (plain joins, or the csv module's quoting when a name contains the delimiter or a quote)",
 ]
 COMPONENTS = {
     "real": ["CVR.merge_cvrs", "CVR.from_raire", "CVR.from_raire_file"],
@@ -33,7 +33,9 @@ COMPONENTS = {
 PROBES = ["tally pool conflict", "later record overrides contest", "phantom and real record merged", "pool flag only on later record",
           "three or more records for one card", "raire multi-contest card", "raire empty ranking", "no duplicates at all",
           "falsy tally pool label", "falsy card identifier", "raire ballot id equals a candidate id",
-          "records built with CVR.from_dict", "RAIRE file read twice, first result mutated in between"]
+          "records built with CVR.from_dict", "RAIRE file read twice, first result mutated in between",
+          "records share a contest dict (constructor default / one template)",
+          "RAIRE file with quoted fields (delimiter / quote inside a name)"]
 
 
 def generate(rng, tier):
@@ -59,7 +61,25 @@ def generate(rng, tier):
             con = rng.pick(contests)
             n = rng.randint(0, len(con["cands"]))
             ballots.append({"contest": con["id"], "id": rng.pick(bids), "ranking": rng.sample(con["cands"], n)})
-        return {"kind": "raire", "contests": contests, "ballots": ballots, "via_file": rng.chance(0.6), "read_twice": rng.chance(0.4)}
+        case = {"kind": "raire", "contests": contests, "ballots": ballots, "via_file": rng.chance(0.6), "read_twice": rng.chance(0.4)}
+        if rng.chance(0.25):
+            # identifiers are text: a candidate or a card label may contain the delimiter, a quote or a space; the file
+            # is then written with the standard CSV quoting that the documented reader (quotechar '"') understands
+            ren = {}
+            for con in contests:
+                for c in con["cands"]:
+                    if c not in ren and rng.chance(0.5):
+                        ren[c] = rng.pick([f"Smith, {c}", f'"{c}"', f"O'Neil {c}", f"a,b,{c}", f" {c}x"])
+            for con in contests:
+                con["cands"] = [ren.get(c, c) for c in con["cands"]]
+            for b in ballots:
+                b["ranking"] = [ren.get(c, c) for c in b["ranking"]]
+            if rng.chance(0.4):
+                bren = {i: f"{i}, pct {k}" for k, i in enumerate(bids)}
+                for b in ballots:
+                    b["id"] = bren[b["id"]]
+            case["csv_quoting"] = True
+        return case
     ncards = rng.randint(1, 6)
     ids = [f"card{j}" for j in range(ncards)]
     if rng.chance(0.35):  # identifiers need not be truthy: a card numbered 0, an empty label
@@ -68,6 +88,8 @@ def generate(rng, tier):
             ids[1] = 0 if ids[0] == "" else ""
     cons = [f"K{j}" for j in range(rng.randint(1, 4))]
     pools = [None, None, "p1", "p2", 0, ""]  # a batch index 0 or an empty label is a label, not "no pool"
+    if rng.chance(0.3):  # labels of different types that merely print alike are different labels
+        pools = [None, None, 3, "3", 0, "0", "", "None"]
     conflict = rng.chance(0.25)
     card_pool = {i: rng.pick(pools) for i in ids}
     recs = []
@@ -78,10 +100,10 @@ def generate(rng, tier):
             votes[c] = {f"{c}a": rng.pick([1, 2, True, False, 0]), **({f"{c}b": rng.pick([1, 2, 3])} if rng.chance(0.5) else {})}
         tp = card_pool[i] if rng.chance(0.7) else None
         if conflict and rng.chance(0.2):
-            tp = rng.pick(["p1", "p2", "p3", 0, ""])
+            tp = rng.pick([p_ for p_ in pools if p_ is not None] + ["p3"])
         recs.append({"id": i, "votes": votes, "phantom": rng.chance(0.3), "pool": rng.chance(0.3), "tally_pool": tp})
     return {"kind": "merge", "records": recs, "via_from_dict": rng.chance(0.5),
-            "omit_defaults": rng.chance(0.5)}
+            "omit_defaults": rng.chance(0.5), "shared_dicts": rng.chance(0.5)}
 
 
 def ref_merge(recs):
@@ -179,6 +201,23 @@ def execute(case):
                 return out
         else:
             cvrs = W.mk_cvrs(ns, recs)
+            if case.get("shared_dicts"):
+                # records need not own a private contest dict: a record built without the votes argument holds the
+                # constructor's default, and records with the same content may have been built from one template
+                stale = ns.CVR(id="probe").votes
+                if stale:  # (left behind by an earlier run in this process: start clean, the verdicts are per run)
+                    stale.clear()
+                templates = {}
+                cvrs = []
+                for r in recs:
+                    kw = dict(id=r["id"], phantom=bool(r["phantom"]), pool=bool(r["pool"]), tally_pool=r["tally_pool"])
+                    if not r["votes"]:
+                        cvrs.append(ns.CVR(**kw))
+                    else:
+                        key = repr(sorted((k, sorted(v.items())) for k, v in r["votes"].items()))
+                        cvrs.append(ns.CVR(votes=templates.setdefault(key, copy.deepcopy(r["votes"])), **kw))
+                out.probe("records share a contest dict (constructor default / one template)")
+        inputs_before = [(c.id, copy.deepcopy(c.votes)) for c in cvrs]
         try:
             got = ns.CVR.merge_cvrs(cvrs)
         except Exception as e:
@@ -195,6 +234,17 @@ def execute(case):
             out.violate("C18.e", "merge/conflict-accepted", "records of one card carry different tally pools and the merge did not raise")
             return out
         compare(out, got, ref, "merge")
+        # records of *other* cards are not part of a card's merge: a record whose identifier occurs once still says
+        # what it said
+        once = {i for i in ids if ids.count(i) == 1}
+        for c, (i, v) in zip(cvrs, inputs_before):
+            if i in once and c.votes != v:
+                out.violate("C18.b", "merge/bystander-changed", f"record of card {i!r} (not repeated) said {v} before the merge and {c.votes} after")
+        if case.get("shared_dicts"):
+            fresh = ns.CVR(id="made-after-the-merge")
+            if fresh.votes:
+                out.violate("C18.b", "merge/later-records-polluted", f"a record created after the merge, without contests, lists {fresh.votes}")
+                fresh.votes.clear()
         return out
     # ---- RAIRE channel
     rows = [[str(len(case["contests"]))]]
@@ -218,9 +268,14 @@ def execute(case):
         if case["via_file"]:
             with tempfile.TemporaryDirectory(prefix="c18_") as d:
                 p = os.path.join(d, "export.raire")
-                with open(p, "w") as f:
-                    for r in rows:
-                        f.write(",".join(r) + "\n")
+                with open(p, "w", newline="") as f:
+                    if case.get("csv_quoting"):
+                        import csv
+                        csv.writer(f, delimiter=",", quotechar='"', lineterminator="\n").writerows(rows)
+                        out.probe("RAIRE file with quoted fields (delimiter / quote inside a name)")
+                    else:
+                        for r in rows:
+                            f.write(",".join(r) + "\n")
                 if case.get("read_twice"):
                     # the same untouched file is read again after the first result was used (ids rewritten in place by
                     # Dominion.raire_to_dominion, flags set, a record appended) - the second reading is the one judged
@@ -261,7 +316,7 @@ def reducers(case):
             c = copy.deepcopy(case)
             del c[key][i]
             yield c
-    for flag in ("via_from_dict", "omit_defaults", "read_twice"):
+    for flag in ("via_from_dict", "omit_defaults", "read_twice", "shared_dicts"):
         if case.get(flag):
             c = copy.deepcopy(case)
             c[flag] = False
